@@ -40,6 +40,7 @@ GROUP: Dict[str, str] = {
     "JoinStep_get_uuids": "Proofs/SrcTiePlanP.v",
     "JoinStepCollection_similar_dependent_joins_uuids": "Proofs/SrcTiePlanP.v",
     "JoinStepCollection_add": "Proofs/SrcTiePlanP.v",
+    "ResolveComputeFrameworks_order_queue_by_trekker_order": "Proofs/SrcTieQueueP.v",
 }
 # lemma -> target, to name the first lemma coqc stopped at
 LEMMA_TARGET = {
@@ -66,6 +67,9 @@ LEMMA_TARGET = {
     "similar_loop_src": "JoinStepCollection_similar_dependent_joins_uuids",
     "similar_dependent_joins_uuids_src": "JoinStepCollection_similar_dependent_joins_uuids",
     "joinstep_collection_add_src": "JoinStepCollection_add", "joinstep_collection_add_fresh": "JoinStepCollection_add",
+    **{l: "ResolveComputeFrameworks_order_queue_by_trekker_order" for l in (
+        "py_dd_add_iadd", "queue_loop2_src", "queue_loop5_src", "queue_loop4_src", "queue_loop3_src", "oq_step_unfold",
+        "queue_loop1_src", "order_queue_by_trekker_order_src")},
 }
 
 TRUSTED = [
@@ -437,6 +441,62 @@ def _space_plan(target: str) -> Dict[str, Any]:
                         "&& Nat.eqb (snd (snd a)) (snd (snd b))) (map fst o) (jc ++ [js]) "
                         "&& PlannerL.list_eqb_by PlannerL.sets_eqb (map snd o) "
                         "(map (fun k => [100 + k]) (seq 0 (List.length jc)) ++ [PlannerL.jc_required jc (fst (snd js)) (snd (snd js))]) end."}
+    if target == "ResolveComputeFrameworks_order_queue_by_trekker_order":
+        import types
+        from collections import OrderedDict
+        from mloda.core.prepare.resolve_compute_frameworks import ResolveComputeFrameworks as RCF
+        uids = (0, 4, 8)
+        links = {u: _real_plink(u) for u in uids}
+        fw = {0: (0, 1), 4: (1, 2), 8: (2, 0)}
+        groups = _cfws()        # any class that is not a Link stands for a feature group class
+
+        def item(x: List[Any]) -> Any:
+            if x[0] == "L":
+                return (links[x[1]], _cfws()[x[2]], _cfws()[x[3]])
+            return (groups[x[1]], frozenset())
+
+        def back(p: Any) -> Any:
+            if isinstance(p, tuple) and len(p) == 3 and getattr(p[0], "uuid", None) is not None:
+                return ["L", p[0].uuid.int - 1, _cfws().index(p[1]), _cfws().index(p[2])]
+            if isinstance(p, tuple) and len(p) == 2 and p[0] in groups:
+                return ["G", groups.index(p[0])]
+            raise ValueError("not a queue item")
+
+        def real_oq(i: dict) -> Any:
+            lt = types.SimpleNamespace(order=OrderedDict((_uu(k), {_uu(x) for x in v}) for k, v in i["orders"]))
+            me = RCF.__new__(RCF)
+            return [back(p) for p in me.order_queue_by_trekker_order([item(x) for x in i["queue"]], lt)]
+        L = lambda u: ["L", u, fw[u][0], fw[u][1]]  # noqa: E731
+        queues = []
+        for n in (1, 2, 3):
+            for perm in itertools.permutations(uids, n):
+                queues.append([L(u) for u in perm])
+                if n == 3:
+                    queues.append([L(perm[0]), ["G", 0], L(perm[1]), L(perm[2])])
+        orders: List[List[Any]] = [[]]
+        for n in (1, 2, 3):
+            for ks in itertools.permutations(uids, n):
+                choices = []
+                for k in ks:
+                    others = [u for u in uids if u != k]
+                    choices.append([[others[0]], [others[1]], others] if n < 3 else [[others[0]], [others[1]], others])
+                for vs in itertools.product(*choices):
+                    orders.append([[k, list(v)] for k, v in zip(ks, vs)])
+
+        def cq_item(x: List[Any]) -> str:
+            return f"PlannerL.PL ({cq_nat(x[1])}, ({cq_nat(x[2])}, {cq_nat(x[3])}))" if x[0] == "L" else f"PlannerL.PG {cq_nat(x[1])} []"
+        ty = "(list PlannerL.pitem * PlannerA.amap) * option (list PlannerL.pitem)"
+        return {"inputs": [{"queue": q, "orders": o} for q in queues for o in orders],
+                "real": real_oq,
+                "term": lambda i, o: (f"(({cq_list(cq_item(x) for x in i['queue'])}, "
+                                      f"{cq_list(f'({cq_nat(k)}, {_nl(v)})' for k, v in i['orders'])}), "
+                                      + (f"Some {cq_list(cq_item(x) for x in o)}" if isinstance(o, list) else "None") + ")"),
+                "type": ty, "req": ["MV.Model.PlannerL"],
+                # the postponed links of one key are iterated in hash order: the model has to agree under SOME oracle (two
+                # links at most wait under one key here: the identity and the reversal are all the orders there are)
+                "defs": f"Definition chk (c : {ty}) := match c with ((pq, orders), Some o) => "
+                        "existsb (fun od => PlannerL.list_eqb_by PlannerL.pitem_eqb (PlannerL.order_queue od orders pq) o) "
+                        "[PlannerA.ord_id; (fun _ l => rev l)] | _ => false end."}
     raise KeyError(target)
 
 
